@@ -308,6 +308,9 @@ func (c *Client) flushBuf(ctx context.Context, b *proto.Buffer) error {
 
 func (c *Client) flush(ctx context.Context) error {
 	if err := ctx.Err(); err != nil {
+		// Nothing is sent: drop the pending output, so that it is not
+		// written ahead of the next request.
+		c.writer.Reset()
 		return errors.Wrap(err, "context")
 	}
 	if deadline, ok := ctx.Deadline(); ok {
